@@ -203,6 +203,18 @@ Proof.
   apply nth_error_upd_eq. eapply nth_error_lt; eauto.
 Qed.
 
+(* data that come back together with an error are dropped: the outcome of the
+   read and the state afterwards do not depend on them, and nothing is stored *)
+Lemma rejected_dropped c sid sg junk :
+  nth_error (c_heap c) sid = Some sg -> sg_data sg = None ->
+  exists c', read_f sid (FErr junk) c = Some (c', None, true)
+    /\ nth_error (c_heap c') sid = Some (mkSeg (sg_key sg) (sg_nreads sg + 1) None)
+    /\ read_f sid (FErr junk) c = read_f sid (FErr None) c.
+Proof.
+  intros N Dn. destruct (read_unfilled c sid sg None N Dn) as (c' & H1 & H2).
+  exists c'. unfold read_f. simpl. auto.
+Qed.
+
 Lemma read_filled c sid sg d res :
   nth_error (c_heap c) sid = Some sg -> sg_data sg = Some d ->
   exists c', read sid res c = Some (c', Some d, false).
